@@ -1,16 +1,21 @@
 #!/bin/bash
 # confirm a seeded change: tools/confirm_seed.sh <worktree> <outdir/k>
 # 1. unchanged: demo must exit 0;  2. changed: builds, full test suite passes, demo exits non-zero
+# (sources only are restored: a worktree may carry its own _build)
 WT=$1; D=$2
 set -u
 cd "$WT" || exit 9
-git checkout -q -- . ; 
-cmake --build _build -j12 >/dev/null 2>&1 || { echo "BASE BUILD FAILED"; exit 9; }
+restore() { git checkout -q -- src include test examples 2>/dev/null; }
+build() { cmake --build _build -j12 >/tmp/confirm_build.log 2>&1; }
+restore
+if ! build; then
+  rm -rf _build; cmake -G Ninja -B _build -DCMAKE_BUILD_TYPE=RelWithDebInfo >/dev/null 2>&1; build || { echo "BASE BUILD FAILED"; exit 9; }
+fi
 bash "$D/run.sh" "$WT" >/tmp/confirm_base.log 2>&1; base=$?
 git apply "$D/patch.diff" || { echo "PATCH DOES NOT APPLY"; exit 9; }
-cmake --build _build -j12 >/tmp/confirm_build.log 2>&1; b=$?
+build; b=$?
 ctest --test-dir _build -j12 --timeout 900 >/tmp/confirm_ctest.log 2>&1; t=$?
 bash "$D/run.sh" "$WT" >/tmp/confirm_changed.log 2>&1; ch=$?
-git checkout -q -- .
-cmake --build _build -j12 >/dev/null 2>&1
+restore
+build
 echo "base_demo_exit=$base build=$b ctest=$t changed_demo_exit=$ch  $(tail -1 /tmp/confirm_ctest.log)"
